@@ -3,7 +3,7 @@
 SPEC = dict(
     engine='index-c04',
     gen_areas=[],
-    corr_targets=['Index/TraceCorr.vo'],
+    corr_targets=['Index/TraceCorr.vo', 'Index/HandlesCorr.vo'],
     level_rule='one case = the recorded root history of one writer run (batch calls/returns, every introduceSegment / introducePersist / introduceMerge with its parameters and the observed new root, reader observations: Count, match-all, lookup by id, stored values) over a simulated, file-system or in-memory directory, ice v1/v2, safe/unsafe, merge options small/default/off; the monitor of Index/Trace.v recomputes every root with the model and rejects any difference; non-trivial = at least 3 introductions and at least one merge or persist swap (or an in-memory directory); distinct = distinct Coq case terms. oracle evaluations: reader content vs the abstract index folded in Go. C04 runs keep up to 4 readers of different ages open across batches, merges, persists, removals and writer Close; each is re-queried after every step (oracle: identical answers, no fault).',
     trust=['segment library contract (ice v1/v2: DocsMatchingTerms returns the positions whose _id is named; Merge concatenates undropped documents and reports the old->new number tables) is not proved: it is the boolean side conditions obs_sound / merge_wf of the monitor, evaluated on every recorded event', 'trace instrumentation in /repo/index (verif_trace.go + 5 added call lines, build tag verif) reports root replacements, introductions, persister grab/ack faithfully'],
     assumptions=[],
